@@ -62,6 +62,7 @@ type World struct {
 	invs     []*TypeInv
 	bounds   map[string]int
 	checkInv bool
+	ghost    []GhostVerify
 }
 
 type TypeInv struct {
